@@ -121,6 +121,10 @@ pub enum Kind {
     InRange,
     /// in-range s1/s2, everything else uniform random bytes (rho, K, tr, t0 area)
     InRangeRandomRest(u64),
+    /// every field of one polynomial (or, with poly = 255, of all polynomials) set to one raw value
+    PolyFill { poly: u8, raw: u8 },
+    /// the whole s1/s2 area filled with one byte
+    AreaFill(u8),
 }
 
 #[derive(Clone, Debug, Hash, Serialize, Deserialize)]
@@ -136,6 +140,8 @@ fn strategy() -> impl Strategy<Value = Case> {
         2 => any::<u64>().prop_map(Kind::Uniform),
         3 => Just(Kind::InRange),
         2 => any::<u64>().prop_map(Kind::InRangeRandomRest),
+        2 => (prop_oneof![any::<u8>(), Just(255u8)], any::<u8>()).prop_map(|(poly, raw)| Kind::PolyFill { poly, raw }),
+        1 => prop_oneof![Just(0xFFu8), Just(0u8), any::<u8>()].prop_map(Kind::AreaFill),
     ];
     (0u8..3, gen::sk_spec(), kind).prop_map(|(set, base, kind)| Case { set, base, kind })
 }
@@ -170,6 +176,24 @@ pub fn check(c: &Case, st: &mut Stats) -> CheckResult {
             sk[t0..].copy_from_slice(&r[t0..]);
             st.class("kind:in_range_random_rho_K_tr_t0");
             "in-range s1/s2 with uniform rho, K, tr, t0".to_string()
+        }
+        Kind::PolyFill { poly, raw } => {
+            let npoly = p.l + p.k;
+            let v = raw % (1 << p.eta_bits());
+            let polys: Vec<usize> = if *poly == 255 { (0..npoly).collect() } else { vec![*poly as usize % npoly] };
+            for pi in polys {
+                for f in 0..256 {
+                    set_field(&p, &mut sk, pi * 256 + f, v);
+                }
+            }
+            st.class("kind:whole_polynomial_fill");
+            format!("all 256 fields of polynomial {poly} set to raw value {v}")
+        }
+        Kind::AreaFill(b) => {
+            let (a, e) = (p.sk_s1_off(), p.sk_t0_off());
+            sk[a..e].iter_mut().for_each(|x| *x = *b);
+            st.class("kind:area_fill");
+            format!("s1/s2 area filled with byte {b:#04x}")
         }
     };
     if !matches!((&c.kind, &c.base), (Kind::InRange, SkSpec::Generated(_))) {
